@@ -296,6 +296,7 @@ Section Wf.
   Proof.
     intros V W E. destruct r as [p sp|k seed]; cbn [esk_of wf_recipient] in *.
     - unfold skesk_encrypt, skesk_encrypt_gen in E.
+      destruct (key_octets alg) as [n0|]; [|discriminate]. destruct (negb (length sk =? n0)%nat); [discriminate|].
       destruct (s2k_derive s2k alg sp p) as [kk|]; cbn [bind] in E; [|discriminate].
       destruct (cfb_enc alg kk _) as [c|]; cbn [of_opt bind] in E; [|discriminate].
       injection E as <-. cbn. auto.
@@ -322,9 +323,7 @@ Section Wf.
   Theorem encrypt_to_wf alg sk iv rs m es ct : sym_valid alg = true -> Forall wf_recipient rs ->
     encrypt_to sha1 cfb_enc rsa_enc ecdh_gen hash aes_wrap s2k alg sk iv rs m = Ok (es, Some ct) -> Forall wf_esk es.
   Proof.
-    intros V W E. unfold encrypt_to in E.
-    destruct (seipd_encrypt sha1 cfb_enc alg sk iv m) as [ct'|]; cbn [bind] in E; [|discriminate].
-    destruct (fold_left _ rs (Ok [])) as [es'|] eqn:F; cbn [bind] in E; [|discriminate]. injection E as -> _.
+    intros V W E. apply encrypt_to_parts in E as [_ F].
     destruct (fold_esks cfb_enc rsa_enc ecdh_gen hash aes_wrap s2k alg sk rs [] es F) as [_ B].
     apply Forall_forall. intros e Ie. apply B in Ie as [[]|[r [Ir Er]]].
     rewrite Forall_forall in W. eapply esk_of_wf; [exact V|apply W; exact Ir|exact Er].
